@@ -14,7 +14,9 @@ META = {
             "exactly rooted-clean(p) followed by rooted-clean(f) (no '', '.', '..' elements, inside the package, "
             "inside srcDir/outDir after env.src/env.out, also with the output suffixes); a file set is exactly "
             "explicit + (selected minus ignored), sorted and duplicate-free, and a directory ignore is the "
-            "segment-wise strictly-beneath relation; Go's path.Match and filepath.Match are modelled in full "
+            "segment-wise strictly-beneath relation; ignore entries are independent of one another (a name is ignored "
+            "iff one entry alone ignores it: no other entry - a directory sorting between an ignored directory and "
+            "its files, a nested one, another order - changes the verdict; a sorted predecessor lookup is refuted); Go's path.Match and filepath.Match are modelled in full "
             "(classes, escapes, multi-byte runes, ErrBadPattern; total, sound for the declarative reading, '*'/'?' "
             "never match '/', '?' takes one rune), filepath.Glob level by level with its error paths, and source "
             "trees with symbolic links (the recursive listing never follows one).  The model is tied to the code by exhaustive small-string "
